@@ -8,6 +8,7 @@ def dispatch (j : Json) : Except String Json := do
   let op ← getStr j "op"
   match m with
   | "pair" => handlePair op j
+  | "eam" => handleEam op j
   | _ => throw s!"unknown model {m}"
 
 def step (line : String) : String :=
